@@ -42,7 +42,13 @@ STOP_OPTIONS = [
     {'early_stopping': {'patience': 1, 'min_delta': 1e-4}}, {'early_stopping': {'patience': 2, 'min_delta': 0.5}},
     {'fitness_error': 0.1, 'early_stopping': {'patience': 2, 'min_delta': 0.5}},
     {'fitness_error': 10.0, 'early_stopping': {'patience': 1, 'min_delta': 1e-4}},
+    {'early_stopping': {'patience': 1, 'min_delta': 0.0}},
+    {'fitness_error': 0.0, 'early_stopping': {'patience': 3, 'min_delta': 1.0}},
 ]
+# accepted by the EarlyStopping validator (both fields are Optional) - run for a few optimizers only, the stop rule is
+# base-class code
+STOP_OPTIONS_NONE = [{'early_stopping': {'patience': None, 'min_delta': 0.5}},
+                     {'early_stopping': {'patience': 2, 'min_delta': None}}]
 
 
 # perm4c (a permutation next to another variable) is left to C14: Task.get_bounds builds a ragged array for it, no
@@ -88,6 +94,9 @@ def shared_jobs(tier, s0, names=None):
     for n in names:
         for so in STOP_OPTIONS:
             jobs.append((_scn(n, cycles=3, seed=s0, over=so), {'d': 0}))
+        if n in names[:3]:
+            for so in STOP_OPTIONS_NONE:
+                jobs.append((_scn(n, cycles=3, seed=s0, over=so), {'d': 0}))
     # (E) population multipliers x cycle budgets (C10), serial and pooled
     for n in names:
         for pm in (1.5, 2.0, 3.0):
